@@ -56,7 +56,8 @@ where
     let rate_bits = config.fri_config.rate_bits;
     let cap_height = config.fri_config.cap_height;
     assert!(
-        fri_params.total_arities() <= degree_bits + rate_bits - cap_height,
+        fri_params.total_arities() <= degree_bits + rate_bits - cap_height
+            && fri_params.total_arities() <= degree_bits,
         "FRI total reduction arity is too large.",
     );
     let (final_poly_coeff_len, max_num_query_steps) =
@@ -151,7 +152,8 @@ where
         .unwrap_or_default();
 
     assert!(
-        fri_params.total_arities() <= degree_bits + rate_bits - cap_height,
+        fri_params.total_arities() <= degree_bits + rate_bits - cap_height
+            && fri_params.total_arities() <= degree_bits,
         "FRI total reduction arity is too large.",
     );
 
